@@ -923,14 +923,18 @@ def gen_session(r, base, sim, *, lims=None, grid_share=0.35, exact_share=0.5, ru
         if cfg["epsilon"] != c0["epsilon"]:
             ops.append({"op": "set_epsilon", "value": c0["epsilon"] if c0["epsilon"] is not None else 0.03})
         if (cfg["x0"], cfg["t0"]) != (c0["x0"], c0["t0"]) or r.random() < 0.5:
-            set_iv(c0["x0"], c0["t0"])
+            # the first call's VALUES, handed over in a form of the other numeric kind (int <-> float) when there is one:
+            # the result may depend on the values only
+            was_float = "float" in c0["x0_form"] or "f64" in c0["x0_form"]
+            other = [f for f in forms if (("float" in f or "f64" in f) != was_float)]
+            set_iv(c0["x0"], c0["t0"], x0_form=r.choice(other) if other and r.random() < 0.7 else None)
         ops.append({"op": "run", "exact": op0["exact"], "time": op0["time"], "iterations": op0["iterations"], "np_seed": op0["np_seed"],
                     "repeat_of": idx})
     return ops
 
 
 # ----------------------------------------------------------------------------- direct oracles (no Lean)
-def oracle_c04(model, case, X, J, T, exact, finalT, truncated, its, lims, evaluators, viol, sig_extra="", where=""):
+def oracle_c04(model, case, X, J, T, exact, finalT, truncated, its, lims, evaluators, viol, sig_extra="", where="", dT=None):
     """the property itself on the real output arrays"""
     x0 = np.array(case["x0"], float); t0 = case["sim"]["t0"]
     shape = "nS=%s,nE=%s" % ("1" if X.shape[1] == 1 else "n", "1" if (J.shape[1] if J.ndim == 2 else 0) == 1 else "n")
@@ -949,8 +953,23 @@ def oracle_c04(model, case, X, J, T, exact, finalT, truncated, its, lims, evalua
         v("non-finite time or state recorded", "nonfinite", "T tail %s" % T[-3:].tolist())
         return
     if len(T) > 1 and not np.all(np.diff(T) > 0):
-        k = int(np.argmax(~(np.diff(T) > 0)))
-        v("times are not strictly increasing", "times", "T[%d]=%r T[%d]=%r" % (k, T[k], k + 1, T[k + 1]))
+        bad = [int(k) for k in np.flatnonzero(~(np.diff(T) > 0))]
+        # recorded defect `C04-tau-below-ulp`: an ADAPTIVE tau-leap step whose reported step size is positive but smaller than
+        # half an ulp of t, so that t + dt == t in float64 (pure rounding: no minimum step size, Cao et al. eqs 11-13 are a TODO
+        # in the source).  Only that; a step with dt <= 0, a decrease, a first-reaction step, exact mode or a fixed tau is judged.
+        adaptive = (not exact) and case["sim"].get("mode") == "tau_adaptive" and case["sim"].get("pre_tau") is None
+        def below_ulp(k):
+            return (adaptive and dT is not None and k < len(dT) and float(dT[k]) > 0.0 and T[k + 1] == T[k]
+                    and float(T[k]) + float(dT[k]) == float(T[k]) and not (k < len(its) and its[k].get("retry")))
+        other = [k for k in bad if not below_ulp(k)]
+        if other:
+            k = other[0]
+            v("times are not strictly increasing", "times", "T[%d]=%r T[%d]=%r%s" % (k, T[k], k + 1, T[k + 1], "" if dT is None or k >= len(dT) else " reported dt=%r" % float(dT[k])))
+        else:
+            k = bad[0]
+            viol.append({"what": "times are not strictly increasing: an adaptive tau-leap step with a positive step size below half an ulp of t (t + dt == t)",
+                         "signature": "C04:times:tau_adaptive:dt-positive-below-ulp",
+                         "detail": "%d such steps, first: T[%d]=%r dt=%r x=%s" % (len(bad), k, T[k], float(dT[k]), X[k].tolist()) + ((" [" + where + "]") if where else "")})
     if len(J):
         Jf = np.asarray(J, float)
         if Jf.ndim != 2 or not np.all(np.mod(Jf, 1) == 0) or not np.all(Jf >= 0):
